@@ -129,6 +129,12 @@ func (env *SEnv) evalPlace(e *SExpr) *SVal {
 			return &SVal{T: Not(env.evalB(e.Args[0])), Go: types.Typ[types.Bool]}
 		case "-":
 			return &SVal{T: App(SInt, "-", env.evalI(e.Args[0]))}
+		case "&":
+			pl := env.evalPlace(e.Args[0])
+			if !pl.HasAddr || pl.Go == nil {
+				env.fail("& of a non-addressable expression")
+			}
+			return &SVal{T: pl.Addr, Go: types.NewPointer(pl.Go)}
 		case "*":
 			p := env.eval(e.Args[0])
 			pt, ok := p.Go.Underlying().(*types.Pointer)
